@@ -18,7 +18,9 @@ RULES = {
            "(a+n)-a == n, b+(a-b) == a, all six relational operators vs unit index order, a<b iff a-b<0, cross-alignment "
            "comparisons vs six-field lexicographic order. Non-trivial = distinct case with |n| > 1000, |year| > 1e5 or a pair.",
     "C17": "every day of the 146097-day cycle x 7 weekdays (weekday, yearday, next_weekday, prev_weekday), replicated at year "
-           "offsets 400*k for k in {0,+-1,+-2,-5,-6,+-1000,+-1e9, extremes of int64}, plus random days over int64 years. "
+           "offsets 400*k for k in {0,+-1,+-2,-5,-6,+-1000,+-1e9, extremes of int64}, plus random days over int64 years; every day of the years next to 12 powers of two; and a sweep of *every* year "
+           "in [-2^30, 2^30) (thorough: [-2^32, 2^32)) with six questions per year around the end of February and the year end, the "
+           "oracle advanced year by year. "
            "Non-trivial = distinct day (each checked against all 7 target weekdays).",
 }
 
@@ -33,12 +35,27 @@ def run(prop, tier, seed, replay=None):
     except build.BuildError as e:
         chk.inconclusive_because("build failed: %s" % str(e)[-1500:])
         return chk.finish()
-    args = ["--prop", prop, "--seed", str(seed), "--tier", tier, "--workers", str(core.ncpu()), "--case-timeout", "300"]
+    args = ["--prop", prop, "--seed", str(seed), "--tier", tier, "--workers", str(core.ncpu()), "--case-timeout", "300", "--leg", "main"]
     if replay and "case" in replay.get("replay_args", {}):
         args += ["--only-case", str(replay["replay_args"]["case"])]
+        if replay["replay_args"].get("leg") == "sweep":
+            args[args.index("--leg") + 1] = "sweep"
     res, rc = core.run_monitor(exe, args, build.san_env("asan"), os.path.join(chk.workdir, "out"),
                                timeout=3600 if tier == "thorough" else 900)
     chk.absorb(res, replay_args=dict(monitor="civilmon"))
+    if prop == "C17" and not replay:
+        # the year sweep runs in an optimised build without sanitizers (header-only arithmetic; 26 G library calls)
+        try:
+            exe2 = build.build_bin("fast", "civilmon")
+        except build.BuildError as e:
+            chk.inconclusive_because("build failed: %s" % str(e)[-1500:])
+            return chk.finish()
+        a2 = ["--prop", prop, "--seed", str(seed), "--tier", tier, "--workers", str(core.ncpu()), "--case-timeout", "600", "--leg", "sweep"]
+        res2, rc2 = core.run_monitor(exe2, a2, build.san_env("fast"), os.path.join(chk.workdir, "out-sweep"),
+                                     timeout=3600 if tier == "thorough" else 900)
+        chk.absorb(res2, replay_args=dict(monitor="civilmon", leg="sweep"))
+        for k, v in res2.stats.items():
+            res.stats[k] = res.stats.get(k, 0) + v
     cov = dict(evaluations=res.stat(prop + ".evaluations"), distinct_nontrivial=res.stat(prop + ".distinct_nontrivial"),
                rule=RULES[prop], samples=res.samples.get(prop, [])[:4], sanitizer_reports=len(res.crashes),
                build_flavour="asan (g++ -fsanitize=address,undefined -fno-sanitize-recover=all)")
@@ -52,7 +69,7 @@ def run(prop, tier, seed, replay=None):
     if not replay:
         need = {"C04": ["C04.base_days", "C04.cross_alignment_conversions", "C04.stream_outputs"],
                 "C05": ["C05.difference_at_int64_limit", "C05.subtract_int64_min", "C05.cross_alignment_comparisons", "C05.base_days"],
-                "C17": ["C17.days"]}[prop]
+                "C17": ["C17.days", "C17.year_sweep_years"]}[prop]
         for k in need:
             if res.stat(k) == 0:
                 chk.inconclusive_because("monitor observed no '%s' events" % k)
